@@ -5,6 +5,7 @@ package silence
 import (
 	"context"
 	"fmt"
+	"io"
 	"sync"
 	"testing"
 	"time"
@@ -69,6 +70,8 @@ func TestVerifRaceSilence(t *testing.T) {
 			defer wg.Done()
 			for i := 0; i < 50; i++ {
 				y.s.GC()
+				y.s.Snapshot(io.Discard)
+				y.s.MarshalBinary()
 				y.sl.PostGC(model.Fingerprints{vX.Fingerprint()})
 				y.s.Query(ctx, QState(SilenceStateActive))
 			}
